@@ -472,7 +472,22 @@ def _value_for(plan, info, name, vid, ref: RefState, nonfinite=None):
     else:
         b = info["base"][name]
         if hasattr(b, "weight"):
-            return b  # data variables are re-put as they are
+            # data variables: re-put as they are, or with the same stored numbers under another mask (an observed 0.0 vs a missing entry
+            # is exactly that), or with other numbers under the same mask
+            from leaspy.utils.weighted_tensor import WeightedTensor
+
+            variant = st.choice(["same", "same", "mask", "mask", "values", "both"]) if vid else "same"
+            if variant == "same" or b.weight is None:
+                return b
+            w, v = b.weight, b.value
+            if variant in ("mask", "both"):
+                keep = torch.tensor([st.bernoulli(0.8) for _ in range(w.numel())]).reshape(w.shape)
+                w2 = w & keep if w.dtype == torch.bool else (w * keep.to(w.dtype))
+                if bool((w2 != 0).any()):
+                    w = w2
+            if variant in ("values", "both") and v.is_floating_point():
+                v = v + 0.01 * torch.tensor(st.normals(v.numel()), dtype=v.dtype).reshape(v.shape)
+            return WeightedTensor(v, w)
         z = torch.tensor(st.normals(b.numel()), dtype=torch.float32).reshape(b.shape)
         if name.endswith("_std") or name == "noise_std":
             t = (b * torch.exp(0.2 * z)).to(b.dtype)
@@ -843,8 +858,12 @@ def run_plan(plan: dict) -> dict:
                 log.add("revert_rows_skipped", sid)
                 continue
             mask = torch.tensor(op["mask"][:n] + [False] * max(0, n - len(op["mask"])), dtype=torch.bool)
-            got = _outcome_real(lambda: s.revert(mask))
-            log.add("revert_rows", sid, op["mask"], got[0])
+            # "subset = True <=> revert": the mask is any tensor of truth values (the state casts it to bool)
+            mdt = [torch.bool, torch.bool, torch.uint8, torch.int64, torch.int32, torch.float32][(i + sum(op["mask"])) % 6]
+            if mdt is not torch.bool:
+                probes["probe.row_mask_not_bool_dtype"] += 1
+            got = _outcome_real(lambda: s.revert(mask.to(mdt)))
+            log.add("revert_rows", sid, op["mask"], str(mdt), got[0])
             nm, old = r.snapshot
             cur = r.indep.get(nm)
             if got[0] != "ok":
